@@ -340,7 +340,7 @@ def unknown_index_fresh(ck, i):
 
 def run(ck):
     thorough = ck.thorough()
-    for i in range(300 if not thorough else 15000):
+    for i in range(300 if not thorough else 60000):
         if ck.mine(i):
             construction_case(ck, ck.rng('cons', i), i)
     n = 0
@@ -350,7 +350,7 @@ def run(ck):
             if ck.mine(n):
                 if not restart_case(ck, n, k, who) and k > 45:
                     break
-    for i in range(24 if not thorough else 600):
+    for i in range(24 if not thorough else 3000):
         if ck.mine(i):
             acquire_case(ck, ck.rng('acq', i), i)
     if ck.mine(1):
